@@ -304,6 +304,9 @@ def judge(run, outcome, fired, before, after, ref):
         return None, notes
 
     # ---- the run failed or was killed
+    if not fatal and run.get("expect") == "ok":
+        return v("success-side", detail="fault-free run of a well-formed corpus structure failed",
+                 exc=run.get("_exc")), notes
     if not fatal:
         # natural failure: the output must be untouched, or -- when the failure came
         # after the PQR had been completed (secondary outputs) -- complete.
@@ -986,6 +989,28 @@ def net_scenarios():
     return S
 
 
+def success_side_scenarios(quick):
+    """Sanity assertion for the success side (input-only, not decided by this family):
+    fault-free runs of well-formed corpus structures with every built-in force field
+    must succeed and be reproducible from different pre-states."""
+    items = [{"item": "cterm_hid.pdb"}, {"item": "5vav_cyclic_peptide.pdb"},
+             {"item": "1AJJ.pdb"}, {"item": "1BX8.pdb"}, {"item": "1A1P.pdb"}]
+    if not quick:
+        items += [{"item": "1K1I.pdb"}, {"item": "1QBS.pdb"}, {"item": "1US0.pdb"},
+                  {"item": "1AJJ.pdb", "chains": ["B", " "]},
+                  {"item": "1BX8.pdb", "damage": [[7, "altloc"], [12, "icode"]]}]
+    S = []
+    for i, it in enumerate(items):
+        for j, ff in enumerate(["AMBER", "CHARMM", "PARSE", "TYL06", "PEOEPB", "SWANSON"]):
+            if quick and (i + j) % 3:
+                continue
+            cfg = dict(it, argv=[f"--ff={ff}"])
+            S.append({"tag": "success-side", "name": f"success:{it['item']}:{ff}",
+                      "pre": ["absent", "sentinel"][(i + j) % 2],
+                      "runs": [{"cfg": cfg, "expect": "ok", "entry": ["run_pdb2pqr", "cli"][j % 2]}]})
+    return S
+
+
 def violation_key(v):
     """Identity of a finding: the violation kind plus the trigger name / cfg options
     that produce it (not the seed, not the instant)."""
@@ -1016,7 +1041,7 @@ def main(tier, seed):
     chunk = 12
     tjobs = [{"id": f"trig#{i // chunk}", "kind": "c12.scenarios", "keep_going": True,
               "scenarios": trig[i:i + chunk]} for i in range(0, len(trig), chunk)]
-    nets = net_scenarios()
+    nets = net_scenarios() + success_side_scenarios(quick)
     njobs = [{"id": f"net#{i // 6}", "kind": "c12.scenarios", "keep_going": True,
               "scenarios": nets[i:i + 6]} for i in range(0, len(nets), 6)]
     # long cfg jobs first (better packing), triggers in between
